@@ -61,6 +61,8 @@ func main() {
 		fs.Parse(os.Args[3:])
 		s, _ := strconv.ParseUint(*seed, 10, 64)
 		runCorr(stream, Config{Tier: *tier, Seed: s, Arg: *arg})
+	case "gen":
+		runGen(os.Args[2:])
 	case "observe":
 		// read case lines on stdin, write implementation observations on stdout
 		observeStdin()
